@@ -109,7 +109,7 @@ class BinCompletionOversize(BinCompletion):
     crosscheck = False
 
     def shapes(self, level):
-        return [(n, False) for n in ((1, 2, 3) if level == "quick" else (1, 2, 3, 4))]
+        return [(n, False) for n in (1, 2, 3)]      # n = 4 (whole search, every path) takes over half an hour and adds nothing to the oversize scan
 
     def shape_text(self, s):
         return f"n={s[0]} integer items >= 0, any of them possibly larger than binsize"
